@@ -720,6 +720,8 @@ class Interp:
             if isinstance(x, (list, tuple, dict, str, range)):
                 return len(x)
             if isinstance(x, T.Term):
+                if isinstance(x.meta.get("length"), int):
+                    return x.meta["length"]
                 return T.mk("len", (x,), origin=site)
             raise AnalysisError(f"len() of {x!r} at {site}")
         if n == "range":
